@@ -68,3 +68,7 @@ claim('C20', 'Hypothesis-generated line/cubic paths built from headings (corner 
       'About 6k (quick) / 100k (thorough) paths: the smoothed path must be continuous, keep its end points (open) or stay closed, have matching reference unit tangents at every joint including the closing joint, stay within maxjointsize of the input (dense flattening), keep already-smooth joints in place, and return single-segment paths unchanged.',
       'Trusts: vp/ref/bez_ref.py derivatives with the C15 one-sided-limit rule; joint tolerance 2e-5 plus a conditioning term; 180-degree reversals excluded.',
       'DESIGN.md 2/C20')
+claim('C14', 'Hypothesis-generated integer polygons / small-integer Bezier outlines / arc ellipses and their affine images; exact rational oracles (shoelace, integral of x dy, even-odd parity, exact segment crossing tests) and algebraic laws',
+      'About 5k (quick) / 120k (thorough) cases: area() against exact rational areas (pi rx ry within the chord bound for arcs), its sign and its behaviour under reversal, translation, scaling and affine maps; path_encloses_pt against exact crossing parity for probes proven (in rationals) to be in general position; is_contained_by against exact crossing tests and even-odd containment of the inner start.',
+      'Trusts: vp/ref/exactgeom.py; curved outlines use an 800-point-per-segment flattening with distance, grazing and joint filters; arc areas with chord_length 1e-2 x size.',
+      'DESIGN.md 2/C14')
